@@ -12,11 +12,15 @@ import (
 	"bytes"
 	"context"
 	"fmt"
+	kredis "github.com/acquirecloud/golibs/kvs/redis"
+	"github.com/alicebob/miniredis/v2"
+	goredis "github.com/go-redis/redis/v8"
 	"runtime"
 	"sort"
 	"sync"
 	"sync/atomic"
 	"time"
+	"verifharness/internal/rproxy"
 
 	"verifharness/internal/hx"
 	"verifharness/internal/kvx"
@@ -843,7 +847,77 @@ func runBigBatch(c Case, s *hx.Sink) {
 	s.Count(fmt.Sprintf("bigbatch:%s:%d", c.Be, n))
 }
 
+// runStaleGet (Redis): the server still holds a record whose own ExpiresAt has passed (its clock is behind, or the
+// record was written with the minimal TTL); a reader gets it while a writer stores a fresh record under the key.  If the
+// reader's Get turns into more than one request, the write lands between them (a relay in front of the server performs
+// the Put, through a second client, the moment a second request of the Get arrives).  The Put returned nil, nobody
+// deleted the key: the fresh record must be there afterwards.
+func runStaleGet(c Case, s *hx.Sink) {
+	mr, err := miniredis.Run()
+	if err != nil {
+		s.DirectViolation(c.ID, "miniredis", err.Error())
+		return
+	}
+	defer mr.Close()
+	px, err := rproxy.New(mr.Addr())
+	if err != nil {
+		s.DirectViolation(c.ID, "relay", err.Error())
+		return
+	}
+	defer px.Close()
+	reader := kredis.New(&goredis.Options{Addr: px.Addr()})
+	writer := kredis.New(&goredis.Options{Addr: mr.Addr()})
+	for _, st := range []kvs.Storage{reader, writer} {
+		if cl, ok := st.(interface{ Close() error }); ok {
+			defer cl.Close()
+		}
+	}
+	ctx := context.Background()
+	for round := 0; round < c.Iters; round++ {
+		key := fmt.Sprintf("sg%d", round)
+		exp := time.Now().Add(2 * time.Millisecond)
+		if _, err := writer.Put(ctx, kvs.Record{Key: key, Value: []byte("old"), ExpiresAt: &exp}); err != nil {
+			s.DirectViolation(c.ID, "stale-get: Put failed", err.Error())
+			return
+		}
+		time.Sleep(4 * time.Millisecond) // the record's ExpiresAt has passed; the server's clock stands still
+		var requests int32
+		var put kvs.Record
+		var putErr error
+		done := false
+		doPut := func() {
+			if !done {
+				done = true
+				put, putErr = writer.Put(ctx, kvs.Record{Key: key, Value: []byte("new")})
+			}
+		}
+		px.OnRequest(func([]byte) {
+			if atomic.AddInt32(&requests, 1) == 2 {
+				doPut()
+			}
+		})
+		reader.Get(ctx, key)
+		px.OnRequest(nil)
+		doPut()
+		if putErr != nil {
+			s.DirectViolation(c.ID, "stale-get: Put failed", putErr.Error())
+			return
+		}
+		got, err := writer.Get(ctx, key)
+		if err != nil || string(got.Value) != "new" || got.Version != put.Version {
+			s.DirectViolation(c.ID, "a record that was written successfully while a reader was getting the key's earlier (out-of-date) record is gone",
+				map[string]any{"round": round, "requests_of_the_get": atomic.LoadInt32(&requests), "get_after": kvx.Class(err)})
+			return
+		}
+	}
+	s.Count("stale-get:redis")
+}
+
 func runCase(c Case, s *hx.Sink) (string, Case, bool) {
+	if c.Kind == "staleget" {
+		runStaleGet(c, s)
+		return coqCase(c.ID, nil, []int{}), c, true
+	}
 	if c.Kind == "bigbatch" {
 		runBigBatch(c, s)
 		return coqCase(c.ID, nil, []int{}), c, true
@@ -1124,6 +1198,9 @@ func main() {
 		add(c)
 		s.Count("kind:owners:" + be)
 	}
+	id++
+	add(Case{ID: id, Be: "redis", Kind: "staleget", Prog: []POp{}, Iters: 20})
+	s.Count("kind:staleget:redis")
 	// ---- large batches: every record of a successful PutMany is there
 	for i, n := range []int{511, 512, 513, 1024, 1536, 2048, 700} {
 		for _, be := range []string{"redis", "inmem"} {
